@@ -59,20 +59,36 @@ Proof.
   unfold transposes_ok, set_projections. cbn. repeat split; reflexivity.
 Qed.
 
+Lemma update_mortar_with_transposes : forall ba bi sd s s',
+    update_mortar_with ba bi sd s = inr s' -> transposes_ok s'.
+Proof.
+  intros ba bi sd s s' H. unfold update_mortar_with in H.
+  destruct (check_mappings _); [|discriminate]. inversion H; subst s'.
+  unfold transposes_ok, set_projections. cbn. repeat split; reflexivity.
+Qed.
+
+Lemma update_secondary_with_transposes : forall ba bi ns s s',
+    transposes_ok s -> update_secondary_with ba bi ns s = inr s' -> transposes_ok s'.
+Proof.
+  intros ba bi ns s s' [T1 [T2 [T3 T4]]] H. unfold update_secondary_with in H.
+  destruct (check_mappings _); [|discriminate]. inversion H; subst s'.
+  unfold transposes_ok, set_projections. cbn. repeat split; auto.
+Qed.
+
 Lemma step_transposes : forall nrm tol s o s',
     transposes_ok s -> step nrm tol s o = inr s' -> transposes_ok s'.
 Proof.
-  intros nrm tol s o s' [T1 [T2 [T3 T4]]] H. destruct o as [news|g]; cbn [step] in H.
+  intros nrm tol s o s' T H. destruct o as [news|g|news|blocks nsec]; cbn [step] in H.
   - unfold update_mortar in H.
     destruct (mortar_blocks nrm tol Averaged (sides s) news); [discriminate|].
     destruct (mortar_blocks nrm tol Integrated (sides s) news); [discriminate|].
-    destruct (check_mappings _); [|discriminate]. inversion H; subst s'.
-    unfold transposes_ok, set_projections. cbn. repeat split; reflexivity.
+    eapply update_mortar_with_transposes; eauto.
   - unfold update_secondary in H.
     destruct (secondary_blocks nrm tol Averaged (sides s) g); [discriminate|].
     destruct (secondary_blocks nrm tol Integrated (sides s) g); [discriminate|].
-    destruct (check_mappings _); [|discriminate]. inversion H; subst s'.
-    unfold transposes_ok, set_projections. cbn. repeat split; auto.
+    eapply update_secondary_with_transposes; eauto.
+  - unfold update_mortar_k in H. eapply update_mortar_with_transposes; eauto.
+  - unfold update_secondary_k in H. eapply update_secondary_with_transposes; eauto.
 Qed.
 
 Fixpoint last_state (s : mstate) (l : list (merr + mstate)) : merr + mstate :=
